@@ -93,6 +93,10 @@ func ModelArith(op string, c dec.Ctx, x, y dec.D) Expect {
 	var ex dec.Exact
 	zeroNeg := false
 	altZero := false
+	// limitZone: some exponent quantity of the call is close to the package
+	// limits, where an exponent-limit error is an accepted outcome. If the call
+	// delivers a result instead, that result is still judged.
+	limitZone := false
 	switch op {
 	case "add", "sub":
 		ex = dec.AddExact(x, y, op == "sub")
@@ -103,13 +107,13 @@ func ModelArith(op string, c dec.Ctx, x, y dec.D) Expect {
 			zeroNeg = c.Mode == "floor"
 		}
 		if nearSystemLimit(x.E-y.E, x.E, y.E, x.Adj(), y.Adj()) {
-			return Expect{Skip: "near-system-limit", SystemLimitOK: true}
+			limitZone = true
 		}
 	case "mul":
 		ex = dec.MulExact(x, y)
 		zeroNeg = x.Neg != y.Neg
 		if nearSystemLimit(x.E+y.E, x.E, y.E, x.Adj()+y.Adj()) {
-			return Expect{Skip: "near-system-limit", SystemLimitOK: true}
+			limitZone = true
 		}
 	case "quo":
 		if y.IsZero() {
@@ -121,7 +125,7 @@ func ModelArith(op string, c dec.Ctx, x, y dec.D) Expect {
 		ex = dec.QuoExact(x, y)
 		zeroNeg = x.Neg != y.Neg
 		if nearSystemLimit(x.E-y.E, x.E, y.E, x.Adj()-y.Adj()) {
-			return Expect{Skip: "near-system-limit", SystemLimitOK: true}
+			limitZone = true
 		}
 	case "abs":
 		ex = dec.ExactOf(x)
@@ -140,7 +144,7 @@ func ModelArith(op string, c dec.Ctx, x, y dec.D) Expect {
 		panic("ModelArith: " + op)
 	}
 	if ex.IsZero() {
-		e := Expect{Res: dec.Zero(zeroNeg, 0), Class: "exact-zero", MustNot: coreFlags | divFlags, AltZeroNeg: altZero}
+		e := Expect{Res: dec.Zero(zeroNeg, 0), Class: "exact-zero", MustNot: coreFlags | divFlags, AltZeroNeg: altZero, SystemLimitOK: limitZone}
 		// cancellation of non-zero operands is a non-trivial case
 		if (op == "add" || op == "sub") && !x.IsZero() {
 			e.Nontrivial = true
@@ -149,9 +153,10 @@ func ModelArith(op string, c dec.Ctx, x, y dec.D) Expect {
 		return e
 	}
 	if nearSystemLimit(dec.AdjExact(ex)) {
-		return Expect{Skip: "near-system-limit", SystemLimitOK: true}
+			limitZone = true
 	}
 	e := fromRounded(dec.RoundOnce(ex, c))
+	e.SystemLimitOK = limitZone
 	return e
 }
 
